@@ -396,7 +396,18 @@ func (c *Ctx) zero(t types.Type) string {
 		}
 		return si.mk(fs)
 	case *types.Array:
-		return fmt.Sprintf("((as const %s) %s)", arraySort(sInt, c.sortOf(u.Elem())), c.zero(u.Elem()))
+		es := c.sortOf(u.Elem())
+		z := c.zero(u.Elem())
+		if es == sInt || es == sBool {
+			return fmt.Sprintf("((as const %s) %s)", arraySort(sInt, es), z)
+		}
+		// cvc5 accepts only value constants in constant arrays
+		name := "zeroarr$" + sanitize(es)
+		if _, ok := c.declared[name]; !ok {
+			c.declare(name, arraySort(sInt, es))
+			c.assume(fmt.Sprintf("(forall ((i Int)) (! (= (select %s i) %s) :pattern ((select %s i))))", name, z, name))
+		}
+		return name
 	}
 	return "0"
 }
